@@ -62,3 +62,75 @@ Proof.
   intros H F Ha H1 H2 Hc Hd. destruct (builtin_font_wf b H) as [Hw Hsp]. destruct Hw as (Hok & _).
   apply (text_chain_left F s ts pos s1 s2 q); auto. apply builtin_index_ok. exact H.
 Qed.
+
+(* ====================================================================== NULL_FONT (src/mono_font/mod.rs) *)
+(* the default font of MonoTextStyleBuilder::new(): regenerated into Gen/FontTable.v as `null_font`.
+   It is NOT font_wf (zero-sized cell, no glyph inside the empty atlas): what holds is stated here. *)
+Definition null_font_zero_b : bool :=
+  let f := bf_font null_font in
+  (f_iw f =? 0) && (f_ih f =? 0) && (f_cw f =? 0) && (f_ch f =? 0) && (f_sp f =? 0) && (f_base f =? 0) &&
+  (d_off (f_ul f) =? 0) && (d_h (f_ul f) =? 0) && (d_off (f_st f) =? 0) && (d_h (f_st f) =? 0) &&
+  (bf_rawlen null_font =? 0) &&
+  match mapping_of null_font with Some m => zlist_eqb (bm_name m) [65; 83; 67; 73; 73] | None => false end.
+
+Theorem null_font_all_zero :
+  bf_font null_font = Font 0 0 0 0 0 0 (Deco 0 0) (Deco 0 0) /\ bf_rawlen null_font = 0 /\
+  exists m, mapping_of null_font = Some m /\ bm_name m = [65; 83; 67; 73; 73].
+Proof.
+  assert (E : null_font_zero_b = true) by (vm_compute; reflexivity). unfold null_font_zero_b in E.
+  destruct (mapping_of null_font) as [m|] eqn:Em; [|rewrite !andb_false_r in E; discriminate].
+  destruct (bf_font null_font) as [iw ih cw ch sp base [uo uh] [so sh]] eqn:Ef. cbn [f_iw f_ih f_cw f_ch f_sp f_base f_ul f_st d_off d_h] in E.
+  repeat (apply andb_prop in E; destruct E as [E ?]).
+  split; [f_equal; try f_equal; lia|]. split; [lia|]. exists m. split; [reflexivity|]. apply zlist_eqb_eq. assumption.
+Qed.
+
+Lemma null_font_geom : f_cw (bf_font null_font) = 0 /\ f_sp (bf_font null_font) = 0.
+Proof. destruct null_font_all_zero as [E _]. rewrite E. split; reflexivity. Qed.
+
+(* the side conditions of the generic theorems that DO hold for the null font *)
+Theorem null_font_side_conditions idx atlas s text :
+  let F := MFont (bf_font null_font) idx atlas in
+  font_ok (bf_font null_font) /\ deco_inside (bf_font null_font) /\ index_ok F text /\
+  advance_consistent (bf_font null_font) s text /\ ~ font_wf (bf_font null_font).
+Proof.
+  cbn zeta. destruct null_font_all_zero as [E _]. rewrite E.
+  split; [unfold font_ok, half; cbn; lia|]. split; [unfold deco_inside; cbn; lia|].
+  split; [intros c _; left; reflexivity|]. split; [left; reflexivity|].
+  unfold font_wf. cbn. lia.
+Qed.
+
+(* C14: a MonoTextStyle with the null font draws nothing: no call reaches the target, whatever the colours *)
+Theorem null_font_draws_nothing idx atlas s text pos bl :
+  draw_string (MFont (bf_font null_font) idx atlas) s text pos bl = ([], pos).
+Proof. destruct null_font_geom. apply draw_string_zero_width; assumption. Qed.
+
+Theorem null_font_text_draws_nothing idx atlas s ts pos text :
+  fst (text_draw (MFont (bf_font null_font) idx atlas) s ts pos text) = [].
+Proof. destruct null_font_geom. apply text_draw_zero_width; assumption. Qed.
+
+(* C15: draw returns what measure_string predicts (this is what a non-zero NULL_FONT.character_spacing breaks) *)
+Theorem null_font_draw_returns_measured idx atlas s text pos bl :
+  snd (draw_string (MFont (bf_font null_font) idx atlas) s text pos bl) =
+  snd (measure_string (bf_font null_font) s text pos bl).
+Proof.
+  destruct null_font_geom as [H1 H2].
+  apply draw_returns_measured; cbn [mf_geom]; [lia|lia|left; exact H2].
+Qed.
+
+Theorem null_font_text_draw_returns_measured idx atlas s ts pos text line p :
+  last_opt (text_lines (bf_font null_font) s ts pos text) = Some (line, p) ->
+  snd (text_draw (MFont (bf_font null_font) idx atlas) s ts pos text) =
+  snd (measure_string (bf_font null_font) s line p (t_base ts)).
+Proof.
+  intros Hl. destruct null_font_geom as [H1 H2].
+  apply (text_draw_returns_measured (MFont (bf_font null_font) idx atlas) s ts pos text line p); cbn [mf_geom]; auto; [lia|lia|left; exact H2].
+Qed.
+
+(* C02: the bounding box is the zero-sized rectangle at the position, and (nothing being drawn) contains all drawn pixels *)
+Theorem null_font_bbox s ts pos text : text_bbox (bf_font null_font) s ts pos text = R pos (S 0 0).
+Proof. destruct null_font_geom. apply text_bbox_zero_width; assumption. Qed.
+
+Theorem null_font_text_in_bbox idx atlas s ts pos text q :
+  render (fst (text_draw (MFont (bf_font null_font) idx atlas) s ts pos text)) q <> None ->
+  contains (text_bbox (bf_font null_font) s ts pos text) q = true.
+Proof. rewrite null_font_text_draws_nothing. intros H. exfalso. apply H. reflexivity. Qed.
